@@ -103,9 +103,25 @@ func (c *Ctx) Thorough() bool { return c.Tier == "thorough" }
 // N picks a count by tier.
 func (c *Ctx) N(quick, thorough int) int {
 	if c.Thorough() {
+		// the thorough count is bounded by a measured multiple of the quick count so that a
+		// thorough run of any property ends within about a quarter of an hour on 16 cores
+		k := thoroughCap[c.Prop]
+		if v, err := strconv.Atoi(os.Getenv("VERIF_TCAP")); err == nil && v > 0 {
+			k = v
+		}
+		if k > 0 && thorough > quick*k {
+			return quick * k
+		}
 		return thorough
 	}
 	return quick
+}
+
+// thoroughCap: largest ratio thorough/quick of any case count, per property
+// (chosen from measured quick-tier wall times; VERIF_TCAP overrides it).
+var thoroughCap = map[string]int{
+	"C01": 16, "C02": 16, "C03": 20, "C04": 8, "C05": 4, "C06": 3, "C07": 3, "C08": 5, "C09": 6, "C10": 4,
+	"C11": 14, "C12": 30, "C13": 30, "C14": 16, "C15": 20, "C16": 30, "C17": 8, "C18": 14, "C19": 6, "C20": 16,
 }
 
 func (c *Ctx) write(s string) {
